@@ -54,7 +54,7 @@ PROGRAMS = {
 }
 NAMES = sorted(PROGRAMS)
 OPTIONS = {"COLLECT_PERF_STATS": True}
-CATS = ["thread-interference", "deadlock", "hang", "worker-died"]
+CATS = ["thread-interference", "thread-state-leak", "deadlock", "hang", "worker-died"]
 
 BOUNDS = {  # (coarse preemptions, fine preemptions, slices)
     "quick": {"coarse2": 2, "fine2": 1, "hot2": None, "coarse3": None, "slices": 4},
@@ -89,6 +89,10 @@ def jobs(tier, seed):
 
 
 _solo = {}
+
+
+class SequentialLeak(Exception):
+    pass
 
 
 def _fine_spec(mode):
@@ -129,7 +133,12 @@ def _solo_digest(name):
         res, trace, err = T.run_concurrent([P.compile_prog(PROGRAMS[name])], (), [{}])
         assert err is None, err
         res2, _, _ = T.run_concurrent([P.compile_prog(PROGRAMS[name])], (), [{}])
-        assert res == res2, "solo run not deterministic: %s" % name
+        if res != res2:
+            # two fresh threads running the same program ALONE, one after the other, see different things: the
+            # second one observed state left behind by the first (per-thread state that is not per thread)
+            keys = [k for k in res[0] if res2[0] is None or res[0][k] != res2[0].get(k)]
+            raise SequentialLeak("program %s run alone on two successive fresh threads differs in %s: first %r, second %r"
+                                 % (name, keys, res[0][keys[0]], res2[0][keys[0]]))
         d = _solo[name] = res[0]
     return d
 
@@ -144,7 +153,12 @@ def run(job, env):
         return out
     names = job["progs"]
     progs = [P.compile_prog(PROGRAMS[n]) for n in names]
-    solos = [_solo_digest(n) for n in names]
+    try:
+        solos = [_solo_digest(n) for n in names]
+    except SequentialLeak as e:
+        _viol(out, "thread-state-leak", str(e), job, ())
+        out["evals"] += 2
+        return out
     if any(s["viol"] for s in solos):
         out["violations"].append({"sig": "harness", "msg": "solo run raises monitor alarms: %r" % (solos,), "features": [], "case": job})
         return out
@@ -214,7 +228,10 @@ def replay(case, env):
     job = case["job"]
     names = job["progs"]
     progs = [P.compile_prog(PROGRAMS[n]) for n in names]
-    solos = [_solo_digest(n) for n in names]
+    try:
+        solos = [_solo_digest(n) for n in names]
+    except SequentialLeak as e:
+        return [{"sig": "thread-state-leak", "msg": str(e)}]
     fine = _fine_spec(job["mode"])
     vs = []
     for rep in range(2):
